@@ -101,6 +101,50 @@ where
     }
 }
 
+/// a prefix of calls (no `last`/`count`), then internal iteration over what is left: `F` = `fold` collecting front to
+/// back, `E` = `for_each`, `R` = `rfold` (back to front), `V` = `rev().collect()`, `S` = `sum`, `K` = `skip(1)` + fold
+fn run_internal<I>(mut it: I, calls: &[Call], kind: &str) -> Option<String>
+where
+    I: Iterator + DoubleEndedIterator + ExactSizeIterator,
+    I::Item: LowerHex + Into<u64> + Copy,
+{
+    let mut out: Vec<String> = vec![];
+    for c in calls {
+        match *c {
+            Call::Next => out.push(item(it.next())),
+            Call::NextBack => out.push(item(it.next_back())),
+            Call::Len => out.push(format!("{}", it.len())),
+            Call::SizeHint => {
+                let (lo, hi) = it.size_hint();
+                out.push(match hi {
+                    Some(h) => format!("h{}:{}", lo, h),
+                    None => format!("h{}:none", lo),
+                });
+            }
+            Call::Nth(n) => out.push(item(it.nth(n))),
+            Call::Last | Call::Count => return None,
+        }
+    }
+    let mut items: Vec<I::Item> = vec![];
+    match kind {
+        "F" => items = it.fold(vec![], |mut v, x| { v.push(x); v }),
+        "E" => it.for_each(|x| items.push(x)),
+        "R" => items = it.rfold(vec![], |mut v, x| { v.push(x); v }),
+        "V" => items = it.rev().collect(),
+        "S" => {
+            let tot: u64 = it.map(|x| x.into()).fold(0u64, |a, b| a.wrapping_add(b));
+            out.push(format!("sum:{:x}", tot));
+            return Some(format!("ok {}", out.join(" ")));
+        }
+        _ => return None,
+    }
+    out.push(";".to_string());
+    for x in items {
+        out.push(format!("s{:x}", x));
+    }
+    Some(format!("ok {}", out.join(" ")))
+}
+
 pub fn handle(op: &str, a: &[&str]) -> Option<String> {
     Some(match (op, a) {
         ("u.to_bytes_le", [x]) => format!("ok {}", show_bytes(&parse_u(x)?.to_bytes_le())),
@@ -158,6 +202,16 @@ pub fn handle(op: &str, a: &[&str]) -> Option<String> {
             let mut v = parse_i(old)?;
             v.assign_from_slice(sign_tok(s)?, &parse_words(w)?);
             ok_i(&v)
+        }
+        ("iter32x", [x, cs, kind]) => {
+            let v = parse_u(x)?;
+            let k = match *kind { "E" => "F", "V" => "R", k => k };
+            let _ = k;
+            run_internal(v.iter_u32_digits(), &parse_calls(cs)?, kind)?
+        }
+        ("iter64x", [x, cs, kind]) => {
+            let v = parse_u(x)?;
+            run_internal(v.iter_u64_digits(), &parse_calls(cs)?, kind)?
         }
         ("iter32", [x, cs]) => {
             let v = parse_u(x)?;
